@@ -1082,8 +1082,8 @@ theorem liftP_ok {α : Type} {r : Except PErr α} {a : α} (h : liftP r = .ok a)
 /-- One response file: a plain file creates/overwrites exactly the validated name; an insertion
     point needs its (validated) target to be in the same bucket already and creates nothing. -/
 theorem writeFile_keys {m m' : Mem} {f : RFile} (h : writeFile m f = .ok m') :
-    ∃ p, validatePath f.name = .ok p ∧ (∀ k ∈ m'.keys, k = p ∨ k ∈ m.keys) ∧
-      (f.insertionPoint ≠ [] → p ∈ m.keys) := by
+    ∃ p, validatePath f.getName = .ok p ∧ (∀ k ∈ m'.keys, k = p ∨ k ∈ m.keys) ∧
+      (f.getIP ≠ [] → p ∈ m.keys) := by
   unfold writeFile at h
   split at h
   · rename_i hip
@@ -1103,7 +1103,7 @@ theorem writeFile_keys {m m' : Mem} {f : RFile} (h : writeFile m f = .ok m') :
 /-- Where a key of the bucket of out directory `o` comes from: a non-insertion file of a
     plugin in `D` whose out directory is `o` and whose validated name is the key. -/
 def Source (cwd : Str) (D : List PluginResp) (o k : Str) : Prop :=
-  ∃ p ∈ D, absPath cwd p.out = o ∧ ∃ f ∈ p.files, f.insertionPoint = [] ∧ validatePath f.name = .ok k
+  ∃ p ∈ D, absPath cwd p.out = o ∧ ∃ f ∈ p.files, f.getIP = [] ∧ validatePath f.getName = .ok k
 
 theorem source_mono {cwd : Str} {D D' : List PluginResp} {o k : Str} (hsub : ∀ p ∈ D, p ∈ D')
     (h : Source cwd D o k) : Source cwd D' o k := by
@@ -1116,8 +1116,8 @@ theorem writeResponse_inv (cwd : Str) (D : List PluginResp) (p : PluginResp) (hp
       (∀ k ∈ m.keys, Source cwd D (absPath cwd p.out) k) →
       writeResponse m fs = .ok m' →
       (∀ k ∈ m'.keys, Source cwd D (absPath cwd p.out) k) ∧
-      (∀ f ∈ fs, f.insertionPoint ≠ [] →
-        ∃ k, validatePath f.name = .ok k ∧ Source cwd D (absPath cwd p.out) k) := by
+      (∀ f ∈ fs, f.getIP ≠ [] →
+        ∃ k, validatePath f.getName = .ok k ∧ Source cwd D (absPath cwd p.out) k) := by
   intro fs
   induction fs with
   | nil =>
@@ -1135,7 +1135,7 @@ theorem writeResponse_inv (cwd : Str) (D : List PluginResp) (p : PluginResp) (hp
       have hm1 : ∀ k' ∈ m1.keys, Source cwd D (absPath cwd p.out) k' := by
         intro k' hk'
         rcases hkeys k' hk' with rfl | hold
-        · by_cases hip : f.insertionPoint = []
+        · by_cases hip : f.getIP = []
           · exact ⟨p, hpD, rfl, f, hfp, hip, hk⟩
           · exact hm _ (hins hip)
         · exact hm k' hold
@@ -1182,8 +1182,8 @@ theorem addResponses_inv (cwd : Str) (all : List PluginResp) :
     ∀ (ps : List PluginResp) (bs bs' : Buckets), (∀ p ∈ ps, p ∈ all) → Prov cwd all bs →
       addResponses cwd bs ps = .ok bs' →
       Prov cwd all bs' ∧
-      (∀ p ∈ ps, ∀ f ∈ p.files, f.insertionPoint ≠ [] →
-        ∃ k, validatePath f.name = .ok k ∧ Source cwd all (absPath cwd p.out) k) := by
+      (∀ p ∈ ps, ∀ f ∈ p.files, f.getIP ≠ [] →
+        ∃ k, validatePath f.getName = .ok k ∧ Source cwd all (absPath cwd p.out) k) := by
   intro ps
   induction ps with
   | nil =>
@@ -1225,13 +1225,13 @@ theorem addResponses_inv (cwd : Str) (all : List PluginResp) :
 /-! ### ValidatePluginResponses -/
 
 def keysOf (key : Str → Str → Str) (p : PluginResp) : List Str :=
-  (p.files.filter fun f => f.insertionPoint = []).map fun f => key p.out f.name
+  (p.files.filter fun f => f.getIP = []).map fun f => key p.out f.getName
 
 def allKeys (key : Str → Str → Str) (ps : List PluginResp) : List Str := ps.flatMap (keysOf key)
 
 theorem validateFiles_ok (key : Str → Str → Str) (out : Str) :
     ∀ (fs : List RFile) (seen seen' : List Str), validateFiles key out fs seen = .ok seen' →
-      seen' = (((fs.filter fun f => f.insertionPoint = []).map fun f => key out f.name).reverse ++ seen) ∧
+      seen' = (((fs.filter fun f => f.getIP = []).map fun f => key out f.getName).reverse ++ seen) ∧
       (seen.Nodup → seen'.Nodup) := by
   intro fs
   induction fs with
@@ -1245,7 +1245,7 @@ theorem validateFiles_ok (key : Str → Str → Str) (out : Str) :
       refine ⟨?_, n⟩
       rw [e]; simp [List.filter_cons, hip]
     · rename_i hip
-      have hip' : f.insertionPoint = [] := by simpa using hip
+      have hip' : f.getIP = [] := by simpa using hip
       simp only at h
       split at h
       · cases h
@@ -1433,7 +1433,7 @@ theorem memPut_keys_fwd {m m' : Mem} {name : Str} {c : Content} (h : memPut m na
       exact Or.inr this
 
 theorem writeFile_keys_fwd {m m' : Mem} {f : RFile} (h : writeFile m f = .ok m') :
-    ∃ p, validatePath f.name = .ok p ∧ p ∈ m'.keys ∧ ∀ k ∈ m.keys, k ∈ m'.keys := by
+    ∃ p, validatePath f.getName = .ok p ∧ p ∈ m'.keys ∧ ∀ k ∈ m.keys, k ∈ m'.keys := by
   unfold writeFile at h
   split at h
   · split at h
@@ -1445,7 +1445,7 @@ theorem writeFile_keys_fwd {m m' : Mem} {f : RFile} (h : writeFile m f = .ok m')
 
 theorem writeResponse_fwd :
     ∀ (fs : List RFile) (m m' : Mem), writeResponse m fs = .ok m' →
-      (∀ k ∈ m.keys, k ∈ m'.keys) ∧ ∀ f ∈ fs, ∃ p, validatePath f.name = .ok p ∧ p ∈ m'.keys
+      (∀ k ∈ m.keys, k ∈ m'.keys) ∧ ∀ f ∈ fs, ∃ p, validatePath f.getName = .ok p ∧ p ∈ m'.keys
   | [], m, m', h => by
     simp [writeResponse] at h; subst h
     exact ⟨fun k hk => hk, by simp⟩
@@ -1489,7 +1489,7 @@ theorem find_set_ne (bs : Buckets) {o o' : Str} (m : Mem) (h : o' ≠ o) : (bs.s
 
 theorem addResponse_fwd {cwd : Str} {bs bs' : Buckets} {p : PluginResp} (h : addResponse cwd bs p = .ok bs') :
     (∀ o k, HasKey bs o k → HasKey bs' o k) ∧
-    ∀ f ∈ p.files, ∃ k, validatePath f.name = .ok k ∧ HasKey bs' (absPath cwd p.out) k := by
+    ∀ f ∈ p.files, ∃ k, validatePath f.getName = .ok k ∧ HasKey bs' (absPath cwd p.out) k := by
   unfold addResponse at h
   simp only at h
   split at h
@@ -1511,7 +1511,7 @@ theorem addResponse_fwd {cwd : Str} {bs bs' : Buckets} {p : PluginResp} (h : add
 theorem addResponses_fwd (cwd : Str) :
     ∀ (ps : List PluginResp) (bs bs' : Buckets), addResponses cwd bs ps = .ok bs' →
       (∀ o k, HasKey bs o k → HasKey bs' o k) ∧
-      ∀ p ∈ ps, ∀ f ∈ p.files, ∃ k, validatePath f.name = .ok k ∧ HasKey bs' (absPath cwd p.out) k
+      ∀ p ∈ ps, ∀ f ∈ p.files, ∃ k, validatePath f.getName = .ok k ∧ HasKey bs' (absPath cwd p.out) k
   | [], bs, bs', h => by
     simp [addResponses] at h; subst h
     exact ⟨fun _ _ hk => hk, by simp⟩
